@@ -197,3 +197,52 @@ extern "C" void h_copy_available(void) {
   vf_assert(d.m_BuffWriteIndex == w, "write index untouched");
   VF_WITNESS();
 }
+
+// ---------- R: ring-index arithmetic of the LZ window layer with the window itself never touched.
+// DecompressCode is replaced (IR-level redirect in the solver, symbol override in the native replay build) by its index contract:
+// it appends 1..60 bytes at the write index (a literal or a match of 3..60 bytes) and reports end of stream at will.  One step from an
+// ARBITRARY pair of ring indices, so every state a history can reach is covered.
+#if defined(VF_NATIVE) && defined(RING)
+extern "C" bool stub_DecompressCode_ring(HuffLZ* self) __asm__("_ZN10OP2Utility7Archive6HuffLZ14DecompressCodeEv");
+#endif
+static unsigned g_ring_calls;
+extern "C" bool stub_DecompressCode_ring(HuffLZ* self) {
+  uint64_t pending = (self->m_BuffWriteIndex - self->m_BuffReadIndex) & 0xFFF;
+  vf_assert(self->m_BuffWriteIndex < 4096 && self->m_BuffReadIndex < 4096, "ring indices stay below 4096");
+  vf_assert(pending + 60 <= 4095, "a code is decoded only while the longest run (60 bytes) still fits: the write index can never catch up with the read index (4096 pending bytes would read as an empty ring)");
+  uint8_t k = vf_nondet_u8(); vf_assume(k >= 1 && k <= 60);
+  self->m_BuffWriteIndex = (self->m_BuffWriteIndex + k) & 0xFFF;
+  bool eos = vf_nondet_u8() & 1;
+  if (++g_ring_calls == 2) { VF_WITNESS(); vf_end(); }      // the second call starts from a state the arbitrary pre-state already covers
+  return eos;
+}
+extern "C" void h_fill_step(void) {
+  g_may_throw = false; g_ring_calls = 0;
+  uint8_t in[1] = { 0 };
+  HuffLZ d(BitStreamReader(in, 1));
+  uint64_t r = vf_nondet_u64(), w = vf_nondet_u64(); vf_assume(r < 4096 && w < 4096);
+  bool eos0 = vf_nondet_u8() & 1;
+  d.m_BuffReadIndex = r; d.m_BuffWriteIndex = w; d.m_EOS = eos0;
+  uint64_t pending0 = (w - r) & 0xFFF;
+  d.FillDecompressBuffer();
+  vf_assert(d.m_BuffReadIndex == r, "filling never moves the read index");
+  if (eos0) vf_assert(g_ring_calls == 0 && d.m_BuffWriteIndex == w, "nothing is decoded after the end of the stream");
+  if (!eos0 && pending0 == 0) vf_assert(g_ring_calls >= 1, "an empty ring before the end of the stream is refilled (an empty internal buffer means end of stream to the callers)");
+  if (g_ring_calls == 0) vf_assert(d.m_BuffWriteIndex == w && d.m_EOS == eos0, "state unchanged when no code is decoded");
+}
+// GetInternalBuffer at the end of the stream (filling returns at once) from arbitrary ring indices: pointer, length and read index
+extern "C" void h_internal_buffer_step(void) {
+  g_may_throw = false;
+  uint8_t in[1] = { 0 };
+  HuffLZ d(BitStreamReader(in, 1));
+  uint64_t r = vf_nondet_u64(), w = vf_nondet_u64(); vf_assume(r < 4096 && w < 4096);
+  d.m_BuffReadIndex = r; d.m_BuffWriteIndex = w; d.m_EOS = true;
+  size_t n = 12345;
+  const char* p = d.GetInternalBuffer(&n);
+  vf_assert(p == &d.m_DecompressBuffer[r], "the internal buffer starts at the read index");
+  vf_assert(n == (w < r ? 4096 - r : w - r), "its length is the pending data up to the end of the window (the rest follows on the next call)");
+  vf_assert(r + n <= 4096, "the returned range lies inside the window");
+  vf_assert((n == 0) == (r == w), "length 0 (the end-of-stream signal) exactly when nothing is pending");
+  vf_assert(d.m_BuffReadIndex == ((r + n) & 0xFFF) && d.m_BuffWriteIndex == w, "the read index advances by the bytes handed out, modulo 4096; the write index is untouched");
+  VF_WITNESS();
+}
